@@ -85,7 +85,17 @@ def correlated_alias_shapes(draw):
     cmp_ = draw(st.sampled_from(['=', '=', '<', '>=']))
     # both tables have a column `a`: cutting the outer alias off `int1.a` makes it bind to the inner table
     corr = f'(u.{ic} {cmp_} {al}.a)'
-    kind = draw(st.sampled_from(['exists', 'not-exists', 'in', 'scalar-target', 'scalar-where', 'nested-twice']))
+    kind = draw(st.sampled_from(['exists', 'not-exists', 'in', 'scalar-target', 'scalar-where', 'nested-twice', 'cte-named',
+                                 'cte-named']))
+    if kind == 'cte-named':
+        # not an alias but a CTE is called like the integration, and its columns are referred to through that name
+        jk = draw(st.sampled_from(['JOIN', 'LEFT JOIN']))
+        sql = (f'WITH {al} AS (SELECT y.a AS a, y.{oc} AS v FROM {q}.{outer_t} AS y) SELECT {al}.v AS c0, u.{ic} AS c1 '
+               f'FROM {al} {jk} {q}.{inner_t} AS u ON ({al}.a = u.a)')
+        tags = ['shape:correlated-alias', 'cte', 'cte:named-like-integration', 'join:' + jk]
+        return {'sql': sql, 'meta': {'order_cols': [], 'total_order': False, 'limit': False, 'tags': tags, 'types': ['int', 'int'],
+                                     'tables': sorted({outer_t, inner_t}), 'places': ['int1']},
+                'data': draw(model.table_data(min_rows=1)), 'catalog': draw(st.sampled_from(sorted(CATALOGS)))}
     inner_from = f'{q}.{inner_t} AS u'
     if kind == 'exists':
         where = f' WHERE EXISTS (SELECT 1 FROM {inner_from} WHERE {corr})'
